@@ -38,7 +38,7 @@ TEMPLATES = {
     # list of paragraphs; each paragraph = list of (name, first_line, [continuation lines])
     "single": [[("Package", "foo", []), ("Version", "1.0-1", [])]],
     "multi": [[("Package", "foo", []), ("Description", "short", [" long line", " .", "\tmore"]), ("Tag", "x", [])]],
-    "emptyfirst": [[("Source", "s", []), ("Files", "", [" a b c", " d e f"])]],
+    "emptyfirst": [[("Source", "s", []), ("Binary", "", [" a b c", " d e f"])]],
     "two": [[("Package", "a", []), ("Depends", "b (>= 1), c", [])], [("Package", "b", []), ("Description", "x", [" y"])]],
 }
 
